@@ -35,9 +35,11 @@ def cases(ctx):
         Sg = rng.choice([['a', 'b'], ['a'], ['a', 'b', 'c']])
         yield {'kind': 'regexp', 'X': gen.random_regexp(rng, rng.randint(0, 9), Sg), 'ns': [0, 1, 2, 3, 4]}
     for i in range(100 * K):
-        yield {'kind': 'tm', 'X': gen.random_tm(rng), 'ns': [0, 1, 2, 3], 'k': rng.choice([5, 50])}
+        yield {'kind': 'tm', 'X': gen.random_tm(rng), 'ns': [0, 1, 2, 3], 'k': rng.choice([1, 2, 3, 5, 50])}
     for i in range(120 * K):
-        yield {'kind': 'cfg', 'X': gen.random_cfg(rng, cnf=rng.random() < 0.4, maxlen=3), 'ns': [0, 1, 2, 3, 4]}
+        yield {'kind': 'cfg', 'X': gen.random_cfg(rng, cnf=rng.random() < 0.5, maxlen=3, multichar=rng.random() < 0.35), 'ns': [0, 1, 2, 3, 4]}
+    for i in range(20 * K):
+        yield {'kind': 'cfg', 'X': gen.ambiguous_cfg(rng), 'ns': [0, 1, 2, 3]}
     for i in range(50 * K):
         yield {'kind': 'pda', 'X': gen.random_pda(rng), 'ns': [0, 1, 2, 3] if i % 5 == 0 else [0, 1, 2]}
 
